@@ -100,6 +100,10 @@ def enc_expr(ops):
             out.append(0x9f)             # DW_OP_stack_value: the result is a value, not an address
         elif k == "drop":
             out.append(0x13)
+        elif k == "skip":
+            out.append(0x2f); out += struct.pack("<h", o[1])      # DW_OP_skip: relative to the byte after the operand
+        elif k == "bra":
+            out.append(0x28); out += struct.pack("<h", o[1])      # DW_OP_bra: pops; branches when non-zero
         else:
             out.append(0xff)
     return bytes(out)
